@@ -225,7 +225,9 @@ class BitStringEncoder(AbstractItemEncoder):
         while stop < valueLength:
             start = stop
             stop = min(start + maxChunkSize * 8, valueLength)
-            substrate += encodeFun(alignedValue[start:stop], asn1Spec, **options)
+            # fragments are value objects carrying plain BIT STRING tag by
+            # now: schema, with all its tags, must not be applied to them
+            substrate += encodeFun(alignedValue[start:stop], **options)
 
         return substrate, True, True
 
